@@ -533,6 +533,7 @@ func (c *eCorpus) borderSearches(r *rng.R, e *eExpr, block int, tag string) {
 			c.search(e, lo-1, c.docs[hit[n]].mid, rng.Pick(r, eLimits), r.Bool(), true, tag)
 			m := len(hit) - 1 - n // the same counted from the oldest
 			c.search(e, c.docs[hit[m]].mid, hi, rng.Pick(r, eLimits[:5]), r.Bool(), r.Bool(), tag)
+			c.search(e, lo, c.docs[hit[m]].mid, rng.Pick(r, eLimits[:5]), r.Bool(), true, tag)
 		}
 	}
 }
@@ -761,7 +762,8 @@ func eGenLid64k(r *rng.R, ndocs int) *eCorpus {
 func eGenIds4k(r *rng.R, k, off int) *eCorpus {
 	n := eIdsBlock*k + off
 	c := &eCorpus{shape: "ids4k", params: map[string]any{"k": k, "off": off, "docs": n}}
-	div := uint64(r.Range(1, 4)) // up to 4 documents share a MID: borders are decided by RIDs
+	div := uint64(rng.Pick(r, []int{1, 3, 5, 8})) // up to 8 documents share a MID: borders inside a MID group are decided by RIDs
+	sh := uint64(r.Intn(int(div)))
 	vocab := map[string][]string{"f": nil, "s": nil}
 	for i := 0; i < 13; i++ {
 		vocab["f"] = append(vocab["f"], fmt.Sprintf("v%d", i))
@@ -769,13 +771,13 @@ func eGenIds4k(r *rng.R, k, off int) *eCorpus {
 	for i := 0; i < 200; i++ {
 		vocab["s"] = append(vocab["s"], fmt.Sprintf("s%03d", i))
 	}
-	c.params["mid_div"] = div
+	c.params["mid_div"], c.params["mid_shift"] = div, sh
 	for i := 0; i < n; i++ {
 		t := []string{"f:" + vocab["f"][i%13], "s:" + vocab["s"][(i*7)%200]}
 		if i%4 != 1 {
 			t = append(t, fmt.Sprintf("g:g%d", i%6))
 		}
-		c.add(eBaseMID+uint64(i)/div, eRid(i), `{"i":`+fmt.Sprint(i)+`,"p":"`+strings.Repeat("x", int(eRid(i)%57))+`"}`, t...)
+		c.add(eBaseMID+(uint64(i)+sh)/div, eRid(i), `{"i":`+fmt.Sprint(i)+`,"p":"`+strings.Repeat("x", int(eRid(i)%57))+`"}`, t...)
 	}
 	c.finish()
 	c.idBorderRequests(r, eAll())
